@@ -87,7 +87,7 @@ def main(argv=None):
     kf = load_known_findings()
     known = {(f["property"], f["obligation"]): f for f in kf.get("findings", [])}
 
-    violations, undecided, faults, known_hit = [], [], [], []
+    violations, undecided, faults, known_hit, inapplicable = [], [], [], [], []
     n_ded = n_ded_ok = n_bnd = n_bnd_ok = n_exh = n_exh_ok = 0
     bounded_evals = 0
     exh_evals = 0
@@ -135,6 +135,8 @@ def main(argv=None):
                 known_hit.append((s, r, known[key]))
             else:
                 violations.append((s, r))
+        elif st == "inapplicable":
+            inapplicable.append((s, r))
         elif st == "unknown":
             undecided.append((s, r))
         else:
@@ -159,6 +161,8 @@ def main(argv=None):
         print("checker fault in obligation %s: %s" % (s.id, r.get("error")))
         if a.verbose and r.get("trace"):
             print(r["trace"])
+    for (s, r) in inapplicable:
+        print("note: obligation %s not decided (%s)" % (s.id, r.get("error")))
     for (s, r) in undecided:
         print("undecided: %s (%s)" % (s.id, r.get("error") or r.get("unknowns")))
     if exit_code == 0 and faults:
@@ -193,6 +197,7 @@ def main(argv=None):
             "samples": samples or [{"note": "no sample recorded"}],
             "known_findings_reproduced": [f["obligation"] for (_, _, f) in known_hit],
             "undecided": [s.id for (s, _) in undecided],
+            "inapplicable_frame_mismatch": [s.id for (s, _) in inapplicable],
             "repo_head": head, "repo_dirty": dirty,
             "bounds": getattr(mod, "BOUNDS", {}),
         }
